@@ -111,5 +111,24 @@ Fixpoint preprocessed_ids (t : item) : list N :=
 Definition mon_fetch_once (c : pcase) : bool :=
   nodupN (flat_map (fun p => preprocessed_ids (p_t_pre p)) (c_passes c)).
 
+(* m7: a redirect within the limit is always followed - at any depth, for any MIME type, with or without asset
+   capture (Stage/Pass.v post_item handles the redirect before every "nothing more to do here" rule; theorem
+   post_item_follows_redirect): every node that was Archived with a 3xx answer and redirects left has, after
+   post-processing, the status GotRedirected and a child *)
+Definition mon_redirect_followed (c : pcase) : bool :=
+  forallb (fun p =>
+    forallb (fun n =>
+      match assoc (id_of n) (p_fetch p) with
+      | Some (Some r) =>
+        if status_eqb (st_of n) Archived && r_redirect r && (nredir (inf n) <? max_redirect (c_cfg c)) then
+          match find (fun m => N.eqb (id_of m) (id_of n)) (flatten (p_t_post p)) with
+          | Some m => status_eqb (st_of m) GotRedirected && negb (match kids m with [] => true | _ => false end)
+          | None => false
+          end
+        else true
+      | _ => true
+      end) (flatten (p_t_arch p))) (c_passes c).
+
 Definition mons (l : list pcase) :=
-  mon_idx [mon_finished_once; mon_wf; mon_finish_iff; mon_unique_urls; mon_redirects; mon_depth; mon_fetch_once] l.
+  mon_idx [mon_finished_once; mon_wf; mon_finish_iff; mon_unique_urls; mon_redirects; mon_depth; mon_fetch_once;
+           mon_redirect_followed] l.
